@@ -56,9 +56,12 @@ class VirtualFile(object):
         except VirtualFileValidationError:
             pass
 
+        # Bytes that hold no tape header at all are not a cassette image (an empty file is an empty tape)
         try:
             cassette_file = CassetteFile(buffer=self.source_file.get_buffer())
-            return cassette_file.list_files(), VirtualFileType.CASSETTE
+            coco_files = cassette_file.list_files()
+            if coco_files or not self.source_file.get_buffer():
+                return coco_files, VirtualFileType.CASSETTE
         except VirtualFileValidationError as error:
             pass
 
